@@ -5,7 +5,7 @@
    signature scheme, every signer and every table of known verifiers. *)
 From Verif.Base Require Import Bytes Utf8 Base64.
 From Verif.Gen Require Import GenConsts.
-From Verif.Note Require Import Note NoteProofs.
+From Verif.Note Require Import Note NoteProofs NoteProofsRT.
 
 (* A successful Open: at least one verified signature; the message is the returned text, a
    blank line and a signature block; the text ends in newline and the split is at the LAST
@@ -82,3 +82,95 @@ Theorem C07_verifier_list_keyed :
     lookup vid (verifier_list vid l) name hash = LUnique v -> v_name v = name /\ v_hash v = hash.
 Proof. intros vid l name hash v. exact (lookup_unique_keyed vid _ name hash v (verifier_list_well_keyed vid l)). Qed.
 Print Assumptions C07_verifier_list_keyed.
+
+(* Round trip.  For [t] valid note text (passes Open's scan: valid UTF-8 without C0 control
+   characters other than newline; ends in newline), at least one and at most 100 signers, each
+   producing a non-empty signature of bytes, with a valid name FREE OF BYTES BELOW 0x20 and
+   a 32-bit key hash; [known] a table whose entries sit under their own (name, hash) (every
+   table built by VerifierList is one, C07_verifier_list_keyed), not ambiguous for a signer's
+   key, and whose verifier for a signer's key accepts that signer's signature of [t]:
+   Sign succeeds with the documented format and Open returns exactly the text [t] with
+   the signatures of known keys as verified (first one per key, in order) and those of
+   unknown keys as unverified (first one per distinct line, in order) - or the
+   UnverifiedNoteError carrying that note when no signer is known.
+   [is_known]/[is_unknown] classify a signature by [lookup]; [dedup_key]/[dedup_line] keep
+   the first signature per (name, hash) / per line text (NoteProofsRT.v). *)
+Theorem C07_sign_open_roundtrip :
+  forall (vid : Type) (V : vid -> str -> str -> bool) (sid : Type) (Sg : sid -> str -> option str)
+         (known : verifiers vid) (t : str) (ss : list (signer sid * str)),
+    scan_ok t = true -> has_suffix t [10] = true ->
+    ss <> [] -> (length ss <= 100)%nat ->
+    (forall s sig, In (s, sig) ss ->
+       Sg (sg_id s) t = Some sig /\ sig <> [] /\ Forall (fun b => 0 <= b < 256) sig /\
+       is_valid_name (sg_name s) = true /\ Forall (fun b => 32 <= b) (sg_name s) /\
+       0 <= sg_hash s < 2 ^ 32) ->
+    (forall k l v, In (k, l) known -> In v l -> (v_name v, v_hash v) = k) ->
+    (forall s sig, In (s, sig) ss -> lookup vid known (sg_name s) (sg_hash s) <> LAmbiguous) ->
+    (forall s sig v, In (s, sig) ss -> lookup vid known (sg_name s) (sg_hash s) = LUnique v ->
+                     V (v_id v) t sig = true) ->
+    let all := map (fun p => {| s_name := sg_name (fst p); s_hash := sg_hash (fst p);
+                                s_b64 := b64_encode (be32_enc (sg_hash (fst p)) ++ snd p) |}) ss in
+    let verified := dedup_key [] (filter (is_known vid known) all) in
+    let unverified := dedup_line [] (filter (is_unknown vid known) all) in
+    exists msg,
+      sign sid Sg {| n_text := t; n_sigs := []; n_unverified := [] |} (map fst ss) = Ok msg /\
+      msg = t ++ [10] ++ concat (map (fun s => sig_line (s_name s) (s_b64 s)) all) /\
+      open vid V msg known =
+      match verified with
+      | [] => Err (Unverified {| n_text := t; n_sigs := []; n_unverified := unverified |})
+      | _ => Ok {| n_text := t; n_sigs := verified; n_unverified := unverified |}
+      end.
+Proof. exact sign_open_roundtrip_stmt. Qed.
+Print Assumptions C07_sign_open_roundtrip.
+
+(* the hypotheses are satisfiable, with a known and an unknown signer: text "hi\n", signers
+   "a" (hash 1, known) and "b" (hash 2, unknown), every signature [7] *)
+Example C07_roundtrip_instance :
+  let V := fun (_ : unit) (_ _ : str) => true in
+  let Sg := fun (_ : unit) (_ : str) => Some [7] in
+  let sa := {| sg_name := B "a"; sg_hash := 1; sg_id := tt |} in
+  let sb := {| sg_name := B "b"; sg_hash := 2; sg_id := tt |} in
+  let known := verifier_list unit [{| v_name := B "a"; v_hash := 1; v_id := tt |}] in
+  exists msg,
+    sign unit Sg {| n_text := B "hi" ++ [10]; n_sigs := []; n_unverified := [] |} [sa; sb] = Ok msg /\
+    open unit V msg known =
+    Ok {| n_text := B "hi" ++ [10];
+          n_sigs := [{| s_name := B "a"; s_hash := 1; s_b64 := B "AAAAAQc=" |}];
+          n_unverified := [{| s_name := B "b"; s_hash := 2; s_b64 := B "AAAAAgc=" |}] |}.
+Proof. eexists. split; vm_compute; reflexivity. Qed.
+
+(* Existing signatures are re-emitted (verified first, then unverified) except those whose
+   key is the key of a new signer; the new signatures follow. *)
+Theorem C07_sign_format :
+  forall (sid : Type) (Sg : sid -> str -> option str) n signers msg,
+    sign sid Sg n signers = Ok msg ->
+    has_suffix (n_text n) [10] = true /\
+    exists new,
+      sign_new sid Sg (n_text n) signers = Ok new /\
+      msg = n_text n ++ [10] ++
+            concat (map (fun s => sig_line (s_name s) (s_b64 s))
+                        (filter (fun s => negb (mem_nh (s_name s, s_hash s)
+                                                       (map (fun sg => (sg_name sg, sg_hash sg)) signers)))
+                                (n_sigs n ++ n_unverified n))) ++ new.
+Proof. exact sign_format. Qed.
+Print Assumptions C07_sign_format.
+
+(* K2 (known finding): without "free of bytes below 0x20" the round trip is false.  With the
+   signer name "a\x01b" (accepted by isValidName) every other hypothesis holds, Sign
+   succeeds, and Open rejects Sign's output as malformed. *)
+Theorem C07_sign_open_roundtrip_ctrl_name_refuted :
+  let V := fun (_ : unit) (_ _ : str) => true in
+  let Sg := fun (_ : unit) (_ : str) => Some [7] in
+  exists (t : str) (ss : list (signer unit * str)) (known : verifiers unit) (msg : str),
+    scan_ok t = true /\ has_suffix t [10] = true /\ ss <> [] /\ (length ss <= 100)%nat /\
+    Forall (fun p => Sg (sg_id (fst p)) t = Some (snd p) /\ snd p <> [] /\
+                     Forall (fun b => 0 <= b < 256) (snd p) /\
+                     is_valid_name (sg_name (fst p)) = true /\ 0 <= sg_hash (fst p) < 2 ^ 32) ss /\
+    (forall k l v, In (k, l) known -> In v l -> (v_name v, v_hash v) = k) /\
+    (forall s sig, In (s, sig) ss -> lookup unit known (sg_name s) (sg_hash s) <> LAmbiguous) /\
+    (forall s sig v, In (s, sig) ss -> lookup unit known (sg_name s) (sg_hash s) = LUnique v ->
+                     V (v_id v) t sig = true) /\
+    sign unit Sg {| n_text := t; n_sigs := []; n_unverified := [] |} (map fst ss) = Ok msg /\
+    open unit V msg known = Err Malformed.
+Proof. exact sign_open_roundtrip_ctrl_name_refuted. Qed.
+Print Assumptions C07_sign_open_roundtrip_ctrl_name_refuted.
